@@ -116,6 +116,33 @@ void suite_isal(int tier) {
             stripe_free(&s);
             stat_add("isal.small_codes", 1);
         }
+        /* gf_gen_rs_matrix is not MDS: hunt for erasure sets whose first k surviving rows are singular
+           (exhaustively on the smallest shapes that have any, sampled on larger ones) and run the
+           adapters on them — with exactly k survivors and with spare ones */
+        if (be == 4) {
+            static const int hunt[][2] = { {5,7}, {6,6}, {6,7}, {7,6}, {12,6}, {10,10}, {16,16}, {20,12}, {4,28} };
+            for (unsigned h = 0; h < (tier ? 9u : 6u); h++) {
+                int k = hunt[h][0], m = hunt[h][1], n = k + m;
+                cfg_t c = { be, k, m, m, 1 + (int)rnd(2) };
+                stripe_t s;
+                if (stripe_make(&s, c, 1 + rnd(4 * k), 0, 0) != 0) { oracle_fail("C19", "encode failed be=%d (%d,%d)", be, k, m); continue; }
+                int found = 0, spare = 0, budget = tier ? 400 : 60;
+                long tries = n <= 13 ? (1l << n) : (tier ? 400000 : 40000);
+                for (long t = 0; t < tries && found < budget; t++) {
+                    uint64_t g;
+                    if (n <= 13) g = (uint64_t)t;
+                    else { g = 0; int cnt = 1 + (int)rnd(m), have = 0; while (have < cnt) { int i = (int)rnd(n); if (!((g >> i) & 1)) { g |= 1ull << i; have++; } } }
+                    int nm = __builtin_popcountll(g);
+                    if (nm == 0 || nm > m) continue;
+                    if (rows_invertible(c, g) != 0) continue;
+                    if (n <= 13 && found >= budget / 2 && nm == m) continue;     /* keep room for sets with spare survivors */
+                    found++; if (nm < m) spare++;
+                    isal_one(&s, g, 0);
+                }
+                stat_add("isal.hunt_singular_found", found); stat_add("isal.hunt_singular_with_spare", spare);
+                stripe_free(&s);
+            }
+        }
         /* larger shapes up to k+m = 32, sampled erasure sets */
         for (int t = 0; t < (tier ? 120 : 16); t++) {
             int k = 1 + (int)rnd(31), m = 1 + (int)rnd(32 - k);
